@@ -1,7 +1,7 @@
 (* C02 — property theorems.  Nothing but statements, `exact`, Print Assumptions.
    Go's Response.Write / Header.Write / chunked writer are MODELLED (RespFraming.v);
    the reference client (Client.v, RFC 7230 3.3.3) is part of the specification. *)
-From G02 Require Import RespFraming Client Check FlushProofs CodecProofs WriterProofs ResponseProofs Obligations.
+From G02 Require Import RespFraming Client Check FlushProofs CodecProofs WriterProofs ResponseProofs HeaderProofs Obligations.
 Open Scope N_scope.
 
 (* The codec law: whatever follows on the connection, the reference client consumes exactly
@@ -40,7 +40,23 @@ Theorem T02_body_intact : forall closing q r, o_body (go_obs (q_method q) (prepa
 Proof. exact body_intact. Qed.
 Print Assumptions T02_body_intact.
 
-(* Header fields: see T02_headers_preserved below (HeaderProofs). *)
+(* Header fields.  (1) The hop-by-hop modifier removes exactly the fields named in its list or
+   in Connection; every other key keeps its values.  (2) Of the header map the writers emit
+   every valid field with every value (sanitised: CR/LF -> SP, trimmed — a fixed point of the
+   client's trimming), in order per key, and (3) add nothing but framing fields. *)
+Theorem T02_headers_preserved :
+  (forall h k, raw_get k (remove_hop_by_hop h) =
+               if existsb (str_eqb k) (map canon (conn_listed h ++ hop_by_hop)) then None else raw_get k h) /\
+  (forall meth r k vs v, In (k, vs) (r_hdr r) -> In v vs -> written_key resp_exclude k = true ->
+     In (k, sanitize v) (o_fields (go_obs meth r))) /\
+  (forall r order k vs v, In (k, vs) (r_hdr r) -> In v vs -> is_token k = true ->
+     In (k, sanitize v) (o_fields (ho_obs r order))) /\
+  (forall meth r f, In f (o_fields (go_obs meth r)) ->
+     In (fst f) framing_names \/ exists k vs v, In (k, vs) (r_hdr r) /\ In v vs /\ f = (k, sanitize v)) /\
+  (forall r order f, In f (o_fields (ho_obs r order)) ->
+     In (fst f) framing_names \/ exists k vs v, In (k, vs) (r_hdr r) /\ In v vs /\ f = (k, sanitize v)).
+Proof. exact headers_preserved. Qed.
+Print Assumptions T02_headers_preserved.
 
 (* The pattern flush writer flushes at write k iff an occurrence of a pattern ends inside
    write k — also when the occurrence straddles two writes. *)
